@@ -91,6 +91,27 @@ func (rotEngine) generate(property string, seed int64, index int, tier string) *
 		origin += "+torn"
 	}
 	n := r.Pick2([]int{2, 3, 4, 8, 16, len(text) / 2, len(text) + 1, r.Range(1, len(text)+2)})
+	ctrlInCell := false
+	if r.Chance(1, 40) {
+		// control / escape sequences inside what ends up as the content of a table cell: a tag name or a (quoted) tag
+		// value that ends in a complete or truncated ANSI sequence, rendered by the unstyled table commands
+		ls := strings.SplitAfter(d.render(), "\n")
+		var entryLines []int
+		for i, l := range ls {
+			if (strings.HasPrefix(l, " ") || strings.HasPrefix(l, "\t")) && strings.Trim(l, " \t\r\n") != "" {
+				entryLines = append(entryLines, i)
+			}
+		}
+		if len(entryLines) > 0 {
+			i := entryLines[r.Intn(len(entryLines))]
+			body := strings.TrimRight(ls[i], "\r\n")
+			seq := r.Pick([]string{"\x1b[31", "\x1b[1;", "\x1b[", "\x1b[0m", "\x1b[38;5;1", "\x1b", "\x1b[31mred\x1b[0"})
+			tag := r.Pick([]string{" #t=\"x" + seq + "\"", " #t=" + seq, " #t" + seq, " #t='" + seq + "'", " #t=\"" + seq})
+			ls[i] = body + tag + ls[i][len(body):]
+			text, origin = strings.Join(ls, ""), "valid+ctrl_in_cell"
+			ctrlInCell = true
+		}
+	}
 	if r.Chance(1, 60) {
 		// a large file (70-300 KiB) and a realistic number of workers
 		text, origin = largeDoc(r, 130) // (whole commands on it: klog needs seconds for 300 KiB, slow is not hung)
@@ -117,6 +138,9 @@ func (rotEngine) generate(property string, seed int64, index int, tier string) *
 	}
 	if strings.HasPrefix(origin, "large:") {
 		rc.Cmds = rc.Cmds[:1]
+	}
+	if ctrlInCell && origin == "valid+ctrl_in_cell" {
+		rc.Cmds = append(rc.Cmds, r.Pick2Cmd([][]string{{"tags", "--values", "--no-style"}, {"tags", "--values", "--count"}, {"tags"}, {"report", "--no-style"}, {"today", "--no-style"}, {"print", "--with-totals", "--no-style"}, {"tags", "--values"}}))
 	}
 	if r.Chance(1, 5) {
 		// a config file: other rendering and evaluation paths (colour schemes, formats, suppressed warnings)
